@@ -9,9 +9,8 @@ package main
 //   PermitsAccess (sema, sema.PermitsAccess, interpreter.PermitsAccess on static authorizations,
 //   reference subtyping in the checker and on static types), IntersectAccess, Image,
 //   resolution of include chains / Identity.
-// Level 2 (programs, checker + interpreter + VM): upcasts, direct members, nested references,
-// mapped fields and mapped accessors reached through an upcast reference; dynamic downcasts of
-// what was obtained.
+// Level 2 (programs, checker + interpreter + VM): upcasts, direct members, nested references and
+// mapped fields reached through an upcast reference; run-time downcasts of what was obtained.
 
 import (
 	"encoding/json"
